@@ -205,25 +205,36 @@ func buildApp(a *App, o *Obs, setEnv *[]string) (*cli.Cli, map[int]*recs) {
 			rs.o[od] = rc
 			c.Var(cli.VarOpt{Name: name, Value: rc, EnvVar: env, SetByUser: sb})
 		}
-		for _, ad := range t.Prog.Args {
+		for i, ad := range t.Prog.Args {
 			sb := new(bool)
 			rs.sba[ad] = sb
+			aenv := ""
+			if ad.EnvSet {
+				aenv = fmt.Sprintf("VPE_%d_A%d", t.ID, i)
+				if !a.Shared {
+					os.Setenv(aenv, "argenv")
+					*setEnv = append(*setEnv, aenv)
+				}
+			}
 			if a.Builtin && ad.Int {
-				p := c.Ints(cli.IntsArg{Name: ad.Name, SetByUser: sb})
+				p := c.Ints(cli.IntsArg{Name: ad.Name, SetByUser: sb, EnvVar: aenv})
 				rs.ba[ad] = func() []string { return intsStr(*p) }
 				continue
 			}
 			if a.Builtin {
-				p := c.Strings(cli.StringsArg{Name: ad.Name, SetByUser: sb})
+				p := c.Strings(cli.StringsArg{Name: ad.Name, SetByUser: sb, EnvVar: aenv})
 				rs.ba[ad] = func() []string { return append([]string{}, *p...) }
 				continue
 			}
 			rc := &Rec{}
 			rs.a[ad] = rc
-			c.Var(cli.VarArg{Name: ad.Name, Value: rc, SetByUser: sb})
+			c.Var(cli.VarArg{Name: ad.Name, Value: rc, SetByUser: sb, EnvVar: aenv})
 		}
 		// env values are Set at declaration time: only command-line values are to be recorded
 		for _, rc := range rs.o {
+			rc.Vals, rc.Clears = nil, 0
+		}
+		for _, rc := range rs.a {
 			rc.Vals, rc.Clears = nil, 0
 		}
 		c.Spec = t.Prog.Spec
@@ -515,15 +526,22 @@ func Build(a *App) *Built {
 	b := &Built{a: a, o: &Obs{Bind: map[int]Binding{}, SetBy: map[int]map[string]bool{}, PanVals: map[string]*PanicValue{}}}
 	func() {
 		defer func() { b.BuildPan = recover() }()
-		var unused []string
-		b.app, b.all = buildApp(a, b.o, &unused)
+		var setEnv []string
+		defer func() {
+			for _, e := range setEnv {
+				os.Unsetenv(e)
+			}
+		}()
+		b.app, b.all = buildApp(a, b.o, &setEnv)
 	}()
 	return b
 }
 
-// Run runs a Built application once
+// Run runs a Built application; it may be called again on the same object (every call starts a fresh observation,
+// the application object and its variables are the library's)
 func (b *Built) Run(argv []string) *Obs {
 	o := b.o
+	*o = Obs{Bind: map[int]Binding{}, SetBy: map[int]map[string]bool{}, PanVals: map[string]*PanicValue{}}
 	if b.BuildPan != nil {
 		o.Pan = b.BuildPan
 		return o
@@ -545,5 +563,6 @@ func (b *Built) Run(argv []string) *Obs {
 		o.Events = append(o.Events, "RET")
 	}()
 	<-done
-	return o
+	cp := *o
+	return &cp
 }
